@@ -207,3 +207,26 @@ fn d9_flush_bumps_visible_mid_batch() {
     println!("checks={checks} torn={:?}", torn);
     assert!(torn.is_none(), "snapshot saw a partially applied batch");
 }
+
+#[test]
+fn d12_torn_item_header_debug_assert() {
+    let dir = tempfile::tempdir().unwrap();
+    {
+        let db = Database::builder(&dir).open().unwrap();
+        let a = db.keyspace("a", KeyspaceCreateOptions::default).unwrap();
+        a.insert("k0", "first").unwrap();
+        a.insert("k", "abc").unwrap();
+    }
+    let p = dir.path().join("0.jnl");
+    let mut bytes = std::fs::read(&p).unwrap();
+    // batch 1: start(13) + item(21+2+5) + end(13) = 54 ; batch 2 starts at 54: start 13 -> item header at 67
+    let item2 = 54 + 13;
+    assert_eq!(bytes[item2], 2, "item tag");
+    let cut = item2 + 17; // after value_len, before on_disk_value_len
+    for b in bytes[cut..].iter_mut() { *b = 0; }
+    std::fs::write(&p, &bytes).unwrap();
+    let db = Database::builder(&dir).open().expect("reopen after torn tail must succeed");
+    let a = db.keyspace("a", KeyspaceCreateOptions::default).unwrap();
+    assert_eq!(a.get("k0").unwrap().as_deref(), Some(&b"first"[..]));
+    assert_eq!(a.get("k").unwrap(), None);
+}
